@@ -316,8 +316,8 @@ def run_criteria(desc, M):
                     forbidden = {d for v in onpath for d in range(n) if D[v][d]}
                     bad = [s_ for s_ in ms if names.index(s_) in forbidden]
                     key = None
-                    if lat is not None and bad and all(names.index(s_) in onpath for s_ in bad):
-                        key = "criteria:known-minimal-adjustment-set-with-latent-confounder-contains-mediator"
+                    if bad and all(names.index(s_) in onpath for s_ in bad):
+                        key = "criteria:known-minimal-adjustment-set-contains-mediator"
                     M.check(not bad, "minimal adjustment set contains no mediator / descendant of a mediator (adjusting for it would block the causal path)",
                             detail=f"{desc['edges']} latent={None if lat is None else names[lat]} X={names[x]} Y={names[y]}: {ms}", key=key)
                     M.check(lat is None or names[lat] not in ms, "minimal adjustment set contains no latent variable", detail=f"{ms}")
